@@ -62,6 +62,32 @@ def load(lib, xml, prefix="xtce"):
     return bv.symbolize_definition(lib.definitions.XtcePacketDefinition.from_xtce(io.BytesIO(xml), xtce_ns_prefix=prefix))
 
 
+def file_forms(lib, d, x1, m2, inputs):
+    """the other public ways in and out: write_xml(path) must write the document to_xml_tree() gives, and from_xtce must load the same definition
+    from a path given as str / as Path as from a file object.  Exercised on a rotating third of the configurations each (no new symbolic paths)."""
+    import tempfile
+    import zlib
+    from pathlib import Path
+    import json
+    sel = zlib.crc32(json.dumps([inputs.get("template"), inputs.get("subject"), inputs.get("cfg")], sort_keys=True, default=str).encode()) % 3
+    if sel == 0:
+        return []
+    obl = []
+    with tempfile.TemporaryDirectory(prefix="spv_xml_") as tmp:
+        path = Path(tmp) / "out.xml"
+        try:
+            d.write_xml(path)
+            raw = path.read_bytes()
+            same = ET.tostring(ET.fromstring(raw), method="c14n") == ET.tostring(ET.fromstring(x1), method="c14n")
+            obl.append(("write_xml(path) writes the document to_xml_tree() gives", same))
+            d3 = lib.definitions.XtcePacketDefinition.from_xtce(str(path) if sel == 1 else path, xtce_ns_prefix=d.xtce_ns_prefix)
+            df = meaning_diff(m2, meaning(d3))
+            obl.append((f"from_xtce({'str path' if sel == 1 else 'Path'}) loads the same definition as from a file object" + (": " + "; ".join(df) if df else ""), not df))
+        except Exception as e:    # noqa: BLE001
+            obl.append((f"write_xml / from_xtce(path) raise nothing ({type(e).__name__})", False))
+    return obl
+
+
 def parse_outcome(lib, defn, items):
     pkt = lib.packets.CCSDSPacket(raw_data=bv.SymBytes(items))
     try:
@@ -134,6 +160,7 @@ class RoundTrip(XmlHarness):
         m2 = meaning(d2)
         df = meaning_diff(m0, m2)
         obl.append(("same types, parameters and containers after write + load" + (": " + "; ".join(df) if df else ""), not df))
+        obl += file_forms(lib, d, x1, m2, inputs)
         obl.append(("writing does not alter the definition", meaning(d) == m0))
         stream, k1, k2 = decode_obligations(lib, d, d2, Lb, obl, "decode")
         inputs = dict(inputs, packet=stream)
@@ -255,11 +282,13 @@ def concrete(req):
             d2 = lib.definitions.XtcePacketDefinition.from_xtce(io.BytesIO(x1), xtce_ns_prefix=d.xtce_ns_prefix)
         except Exception as e:   # noqa: BLE001
             return {"cls": "ran", "stage": "load", "exc": type(e).__name__}
-        df = meaning_diff(m0, meaning(d2))
+        m2 = meaning(d2)
+        df = meaning_diff(m0, m2)
         data = bytes.fromhex(i["packet"]["hex"])
         a, b = _real_parse(lib, d, data), _real_parse(lib, d2, data)
+        forms = [lab for lab, ok in file_forms(lib, d, x1, m2, i) if ok is not True]
         return {"cls": "ran", "stage": "done", "exc": None, "xml_sha": _sha(x1), "outcome": a[0], "meaning_equal": not df, "meaning_diff": df,
-                "decode_equal": a == b, "decode_a": a, "decode_b": b}
+                "decode_equal": a == b, "decode_a": a, "decode_b": b, "file_forms_failed": forms}
     s0 = structural.definition_snapshot(d)
     try:
         g1a, g1b = write(d), write(d)
@@ -290,6 +319,8 @@ def judge(req, got):
             return "reproduced", f"{what}: definition differs after write+load: {got['meaning_diff']}"
         if not got["decode_equal"]:
             return "reproduced", f"{what}: packet {i['packet']['hex']} decodes differently after the round trip: {str(got['decode_a'])[:200]} vs {str(got['decode_b'])[:200]}"
+        if got.get("file_forms_failed"):
+            return "reproduced", f"{what}: other I/O form fails: NOT {got['file_forms_failed'][0]}"
         return "not-reproduced", "round trip preserved the definition and the decoding of this packet"
     if not got["same_twice"]:
         return "reproduced", f"{what}: two writes of the same definition differ"
